@@ -110,7 +110,11 @@ class MITMProxyEventManager:
                 return
 
         AddonManager.handle_http_request(flow)
-        if cap_data and cap_data.cap_name.endswith("ProxyWrapper"):
+        if flow.response_injected:
+            # An addon already answered this request itself, the default handling
+            # below must not replace its response.
+            pass
+        elif cap_data and cap_data.cap_name.endswith("ProxyWrapper"):
             orig_cap_name = cap_data.cap_name.rsplit("ProxyWrapper", 1)[0]
             orig_cap_url = cap_data.region().cap_urls[orig_cap_name]
             split_orig_url = urllib.parse.urlsplit(orig_cap_url)
